@@ -213,8 +213,11 @@ func c14graphs(r *rand.Rand, yieldEvery int64) []*c14graph {
 			n := atomic.AddInt64(&c14patternSerial, 1)
 			var alts []parsley.Parser
 			for k := 0; k < 12; k++ {
-				pat := fmt.Sprintf("%c+(?:Z{%d})?", 'a'+k, 1+n%900)
-				alts = append(alts, text.LeftTrim(terminal.Regexp("tok", "TOK", "a token", pat, 0), text.WsSpaces))
+				pat, group := fmt.Sprintf("%c+(?:Z{%d})?", 'a'+k, 1+n%900), 0
+				if k%2 == 1 { // every other token takes its value from a capturing group
+					pat, group = fmt.Sprintf("(%c+)(?:Z{%d})?", 'a'+k, 1+n%900), 1
+				}
+				alts = append(alts, text.LeftTrim(terminal.Regexp("tok", "TOK", "a token", pat, group), text.WsSpaces))
 			}
 			return combinator.Sentence(text.RightTrim(combinator.Many(combinator.Choice(alts...)), text.WsSpacesNl))
 		}}
